@@ -13,6 +13,7 @@ from numpy import random
 from typing import Tuple
 import warnings
 
+from .cryptominisat import cryptominisat_is_satisfiable
 from .docker_utility import DEFAULT_DOCKER_MODE_ON, docker_run
 from .executables import DEFAULT_DOWNLOAD_IF_MISSING, UNIGEN_EXE, CMSGEN_EXE, ensure_executable_available
 from .tool_error import ToolError
@@ -117,7 +118,11 @@ def call_unigen_python(input_file: Path, sample_count: int) -> str:
     
     if not sampling_set:
         sampling_set = list(range(1, num_vars + 1))
-    
+
+    # pyunigen ends the whole process when the formula is unsatisfiable
+    if cryptominisat_is_satisfiable(input_file, docker_mode=False) is False:
+        return ""
+
     sampler = pyunigen.Sampler()
     for clause in clauses:
         sampler.add_clause(clause)
